@@ -73,6 +73,7 @@ func isPureExternal(name string) bool {
 var pureIfacePrefixes = []string{
 	"(error).Error", "fmt.(Stringer).String", "context.(Context).", "github.com/cometbft/cometbft/libs/log.(Logger).",
 	"(interface).String", "(interface).Error",
+	"go.opentelemetry.io/otel/trace.(Span).",
 }
 
 func pureIface(key string) bool {
